@@ -90,6 +90,17 @@ def gen_case(r, gdesc):
         vr = vcf_records_for(gene, m, style)
         if any(p in used_pos for p, _, _ in vr):
             continue
+        if m[1].startswith("del") and "ins" not in m[1] and r.random() < 0.35:
+            # a deletion record written against a reference that differs from aldy's in one of the DELETED bases (another
+            # assembly patch, a neighbouring SNP of the caller's reference): it still is the catalogued deletion
+            vr2 = []
+            for p_, ref_, alt_ in vr:
+                if len(ref_) > len(alt_) and len(ref_) >= 2:
+                    j_ = r.randrange(1, len(ref_))
+                    ref_ = ref_[:j_] + r.choice([c for c in "ACGT" if c != ref_[j_]]) + ref_[j_ + 1:]
+                    style = "deleted_bases_differ_from_reference"
+                vr2.append((p_, ref_, alt_))
+            vr = vr2
         gt = r.choice(["0/0", "0/1", "1/1", "0|1", "1|0", "1|1", "./.", "1", "0/1/1"])
         copies = {"0/0": 0, "0/1": 1, "1/1": 2, "0|1": 1, "1|0": 1, "1|1": 2, "./.": None, "1": None, "0/1/1": None}[gt]
         for p, ref, alt in vr:
